@@ -130,7 +130,7 @@ def sync(st: State, files: T.Dict[str, T.Dict[str, dict]]) -> State:
                 if validate(sp, st.val[key]) is None:
                     st.val[key] = canon(sp['d'])
                 if key in st.override and validate(sp, st.override[key]) is None:
-                    del st.override[key]
+                    st.override[key] = canon(sp['d'])      # "otherwise falls back to the new default"
                 if proj == 'top' and ('sub:' + n) in st.spec and st.inherits.get('sub:' + n):
                     st.parent_replaced.add('sub:' + n)
                 if proj == 'sub' and st.inherits.get(key):
